@@ -76,10 +76,9 @@ def handle (j : Json) : Except String Json := do
   | "config" =>
     -- sources in priority order (command line, -s file, user file, packaged defaults), each a flat {dotted.key: value}
     let sources := (← (← j.getObjVal? "sources").getArr?).toList.map sourceOf
-    let filters := allContents (sources.take 3) (lit "input.exclude_filters")
-    match resolveAll sources with
+    match resolveMain sources with
     | .error k => pure (Json.mkObj [("err", "type"), ("key", S k)])
-    | .ok vals =>
+    | .ok (vals, filters) =>
       pure (Json.mkObj [("values", Json.mkObj (vals.map (fun (k, v) => (String.ofList k, match v with | some x => cvalJson x | none => Json.null)))),
         ("filters", Json.arr (filters.map cvalJson).toArray),
         ("dir_winner", match winner sources (lit "output.directory") with | some i => (i : Nat) | none => Json.null)])
@@ -142,6 +141,32 @@ def handle (j : Json) : Except String Json := do
     pure (Json.mkObj [("target", match writeTarget arg with
       | .valueError => Json.str "ValueError" | .typeError => Json.str "TypeError" | .streamWrite => Json.str "stream"
       | .openPath p => Json.mkObj [("open", S p)])])
+  | "glob" =>
+    -- exclusion patterns (pathspec gitwildmatch) against path strings as CMinx builds them
+    let pats ← getStrList j "patterns"
+    let paths ← getStrList j "paths"
+    let status : List Json := pats.map (fun p => match Glob.compile p with
+      | .ok .skip => Json.str "skip"
+      | .ok (.pat excl anch _) => Json.str (s!"pat:{excl}:{anch}")
+      | .error .invalid => Json.str "invalid"
+      | .error .unsupported => Json.str "unsupported")
+    match Glob.compileAll pats with
+    | .error .invalid => pure (Json.mkObj [("status", Json.arr status.toArray), ("err", "invalid")])
+    | .error .unsupported => pure (Json.mkObj [("status", Json.arr status.toArray), ("err", "unsupported")])
+    | .ok cs =>
+      -- optional: entries of a walk given as (absolute input directory, components below it, is-directory); the model builds the
+      -- string CMinx hands to pathspec (`queryPath`) and the verdict of the walk's exclusion function (`exclOf`)
+      let queries : List Json := match j.getObjVal? "queries" with
+        | .ok (Json.arr a) => a.toList
+        | _ => []
+      let qs ← queries.mapM (fun q => do
+        let ab ← getStr q "abs"
+        let rel ← getStrList q "rel"
+        let d := getBoolD q "dir" false
+        pure (Json.mkObj [("path", S (Glob.queryPath ab rel d)), ("excl", Json.bool (Glob.exclOf cs ab rel d))]))
+      pure (Json.mkObj [("status", Json.arr status.toArray),
+        ("res", Json.arr (paths.map (fun q => Json.bool (Glob.verdict cs (Glob.normalizeFile q)))).toArray),
+        ("queries", Json.arr qs.toArray)])
   | o => throw s!"unknown op {o}"
 
 partial def loop (hin : IO.FS.Stream) (hout : IO.FS.Stream) : IO Unit := do
